@@ -123,21 +123,21 @@ def value(slot):
     return v
 
 
-def print_problem(slot, sep):
-    """C07 rendering of the slot's own value under its own convention (numbers, percent, money)"""
+def print_problem(slot, sep, fmt):
+    """C07 rendering of the slot's own value under its own convention and the format settings of the batch (numbers, percent, money)"""
     v = slot.get('v', {})
     k = v.get('k')
     out = slot.get('out', '')
     if k == 'number' and v.get('t') == 'Decimal':
-        return check_print(mon.fval(slot), out, sep, 2, True, True)
+        return check_print(mon.fval(slot), out, sep, fmt['digits'], fmt['rm'], fmt['round'])
     if k == 'percent':
         if not out.startswith('%'):
             return 'no % prefix'
-        return check_print(mon.fval(slot), out[1:], sep, 2, True, True)
+        return check_print(mon.fval(slot), out[1:], sep, fmt['digits'], fmt['rm'], fmt['round'])
     if k == 'money':
         cur = lex.currencies().get(v['code'].lower())
         body = out.replace(cur['symbol'], '').strip()
-        return check_print(mon.fval(slot), body, sep, cur['decimalDigits'], False, True)
+        return check_print(mon.fval(slot), body, sep, cur['decimalDigits'], fmt['mrm'], fmt['mround'])
     return None
 
 
@@ -145,11 +145,48 @@ def run_shard(ctx):
     rng = ctx.rng
     res = ctx.res
     drv = ctx.driver()
+    # one calculator per convention with a custom rule and a user unit whose *patterns* contain a number written in that convention
+    # (set up once; the separators are set before the registration, as a user of that convention would do)
+    setup = []
+    for i, sp in enumerate(SEP_CONFIGS):
+        c = 10 + i
+        setup += [{'op': 'new_calc', 'c': c, 'seg': (i == 0)}] + mon.gh.config_ops(mon.cfg_with(dec=sp[0], thou=sp[1]), c, seg=False)
+        setup.append({'op': 'add_rule', 'c': c, 'lang': 'en', 'patterns': ['{NUMBER:n} per %s' % render_literal('1000', sp, True), '{NUMBER:n} half %s' % render_literal('0.5', sp)],
+                      'spec': {'name': 'per', 'kind': 'encode', 'weights': {'n': 3}}})
+    drv.run(setup)
     while not ctx.out_of_time():
+        # literals inside registered patterns follow the convention too
+        pp = []
+        for i, sp in enumerate(SEP_CONFIGS):
+            nn = rng.choice(['250', '12.5', '7', '1234.5'])
+            for text, want in (('%s per %s' % (render_literal(nn, sp), render_literal('1000', sp, True)), 3 * float(nn)),
+                               ('%s per %s' % (render_literal(nn, sp), render_literal('1000', sp, False)), 3 * float(nn)),
+                               ('%s half %s' % (render_literal(nn, sp), render_literal('0.5', sp)), 3 * float(nn))):
+                pp.append((sp, text, want, {'op': 'execute', 'c': 10 + i, 'lang': 'en', 'text': text}))
+        for (sp, text, want, op), r in zip(pp, drv.run([x[3] for x in pp])):
+            if 'lines' not in r and 'panic' not in r:
+                drv.run(setup)          # the driver was restarted after a crash: the calculators of the conventions are set up again
+                res.count('pattern_calculators_set_up_again')
+                break
+            slot = mon.slot0(r)
+            res.cases += 1
+            res.count('class:literal-in-a-registered-pattern')
+            res.distinct.add('pattern', sp, text)
+            if mon.kind(slot) == 'number' and mon.fval(slot) == want:
+                res.count('ok')
+            else:
+                res.violation('sep:pattern-literal', 'under %r a rule registered with the patterns "{NUMBER:n} per %s" / "{NUMBER:n} half %s" should turn %r into %r, got %s'
+                              % (sp, render_literal('1000', sp, True), render_literal('0.5', sp), text, want, mon.describe(slot)),
+                              {'lang': 'en', 'text': text, 'ops': [o for o in setup if o.get('c') == op['c']] + [op]})
         structs = [gen_struct(rng) for _ in range(120)]
         pairs = [tuple(rng.sample(SEP_CONFIGS, 2)) for _ in structs]
         groupeds = [(rng.random() < 0.5, rng.random() < 0.5) for _ in structs]
         pct_suffix = [rng.random() < 0.7 for _ in structs]
+        # the format settings of the batch (the same under every convention): they change what is printed, never what is computed
+        fmt = rng.choice([{'digits': 2, 'rm': True, 'round': True, 'mrm': False, 'mround': True}] * 2 +
+                         [{'digits': 0, 'rm': False, 'round': True, 'mrm': True, 'mround': False},
+                          {'digits': 4, 'rm': False, 'round': False, 'mrm': False, 'mround': False},
+                          {'digits': 3, 'rm': True, 'round': True, 'mrm': True, 'mround': True}])
         thou_first = rng.random() < 0.5      # order of the two separator setter calls (the result must not depend on it)
         res.count('setter_order:thousands-first' if thou_first else 'setter_order:decimal-first')
         results = {}
@@ -162,7 +199,7 @@ def run_shard(ctx):
                 t = render(structs[i][1], sep, g, pct_suffix[i])
                 texts[(i, sep)] = t
                 items.append(('en', t))
-            cfg = mon.cfg_with(dec=sep[0], thou=sep[1], thou_first=thou_first)
+            cfg = mon.cfg_with(dec=sep[0], thou=sep[1], thou_first=thou_first, **fmt)
             rs = mon.run_lines(drv, cfg, items)
             for i, r in zip(idx, rs):
                 results[(i, sep)] = r
@@ -191,7 +228,7 @@ def run_shard(ctx):
                 sig = 'sep:value-differs:%s' % cls
             else:
                 for s_, slot in ((s1, a), (s2, b)):
-                    why = print_problem(slot, s_)
+                    why = print_problem(slot, s_, fmt)
                     if why:
                         problem = 'under %r the line %r prints %r: %s' % (s_, texts[(i, s_)], slot.get('out'), why)
                         sig = 'sep:print:%s' % cls
@@ -201,8 +238,8 @@ def run_shard(ctx):
                 if res.cases % 499 == 0:
                     res.sample({'conventions': [s1, s2], 'lines': [texts[(i, s1)], texts[(i, s2)]], 'value': mon.describe(a)})
                 continue
-            cfg1 = mon.cfg_with(dec=s1[0], thou=s1[1], thou_first=thou_first)
-            cfg2 = mon.cfg_with(dec=s2[0], thou=s2[1], thou_first=thou_first)
+            cfg1 = mon.cfg_with(dec=s1[0], thou=s1[1], thou_first=thou_first, **fmt)
+            cfg2 = mon.cfg_with(dec=s2[0], thou=s2[1], thou_first=thou_first, **fmt)
             res.violation(sig, problem, {'lang': 'en', 'text': texts[(i, s1)], 'other_text': texts[(i, s2)], 'conventions': [s1, s2],
                                          'ops': mon.gh.config_ops(cfg1) + [{'op': 'execute', 'lang': 'en', 'text': texts[(i, s1)]}] +
                                                 mon.gh.config_ops(cfg2, seg=False) + [{'op': 'execute', 'lang': 'en', 'text': texts[(i, s2)]}]})
